@@ -40,7 +40,7 @@ def unreadable(kind):
             "tot0": bytes([6, 0x10, 4, 0x21, 0, 0, 1, 0]), "tot5": bytes([6, 0x10, 2, 8, 0, 5, 1, 0])}[kind]
 
 
-def feed(transport_kind, stream_frames, chunks, other=False):
+def feed(transport_kind, stream_frames, chunks, other=False, cbfail=False):
     """run one chunking through a fresh transport; returns (delivered ids, raised).
     other: a second connection of the same kind is open at the same time and receives pieces of its own stream in between
     (a tunnel next to a management connection; the connection that was lost in the middle of a frame before this one was made)"""
@@ -55,6 +55,12 @@ def feed(transport_kind, stream_frames, chunks, other=False):
     def cb(frame, source, transport):
         b = frame.body
         delivered.append(getattr(b, "communication_channel_id", getattr(b, "secure_session_id", -1)))
+        if cbfail and len(delivered) % 2 == 1:
+            # the consumer cannot use what the frame carries (a nested frame cut short, an unparsable cEMI): its error is logged by the
+            # transport; the frame has been handed over, the stream goes on
+            from xknx.exceptions import CouldNotParseKNXIP, IncompleteKNXIPFrame  # noqa: PLC0415
+
+            raise (IncompleteKNXIPFrame if len(delivered) % 4 == 1 else CouldNotParseKNXIP)("consumer: cannot parse")
 
     tr.register_callback(cb)
     tr2, data2, pos2 = None, good(77, 10)[:7] + good(78) + good(79, 26), 0
@@ -79,9 +85,9 @@ def feed(transport_kind, stream_frames, chunks, other=False):
     return delivered, raised
 
 
-def case(transport_kind, stream, chunks, other=False):
+def case(transport_kind, stream, chunks, other=False, cbfail=False):
     """stream: list of (octets, cls, id)"""
-    delivered, raised = feed(transport_kind, [(f, c) for f, c, _ in stream], chunks, other)
+    delivered, raised = feed(transport_kind, [(f, c) for f, c, _ in stream], chunks, other, cbfail)
     ids = {fid: k + 1 for k, (_, c, fid) in enumerate(stream) if c == "good"}
     return {"t": "tcp", "frames": [{"len": len(f), "cls": c} for f, c, _ in stream],
             "delivered": [ids.get(d, 1000 + k) for k, d in enumerate(delivered)], "raised": raised}
@@ -149,8 +155,9 @@ def run(ck):
         for kind, s, limit in streams(ck, rnd):
             total = sum(len(f) for f, _, _ in s)
             for n_, ch in enumerate(chunkings(total, rnd, limit)):
-                cases.append(case(kind, s, ch, other=(n_ % 4 == 3)))
-                meta.append((kind + (" (a second connection open)" if n_ % 4 == 3 else ""), [(f.hex(), c) for f, c, _ in s], ch))
+                cases.append(case(kind, s, ch, other=(n_ % 4 == 3), cbfail=(n_ % 4 == 1)))
+                meta.append((kind + (" (a second connection open)" if n_ % 4 == 3 else " (the consumer fails on every second frame)" if n_ % 4 == 1 else ""),
+                             [(f.hex(), c) for f, c, _ in s], ch))
         # UDP: datagrams of the C20 plan
         ins = c20.inputs(ck)
         if ck.tier == "quick":
@@ -206,6 +213,7 @@ def replay(ck, path):
     d = json.loads(open(path).read())["replay"]
     m = d["meta"]
     other = "second connection" in m[0]
+    cbfail = "consumer fails" in m[0]
     m[0] = m[0].split(" ")[0]
     if m[0] in ("tcp", "secure"):
         stream = []
@@ -213,7 +221,7 @@ def replay(ck, path):
             f = bytes.fromhex(h)
             stream.append((f, cl, f[6] if m[0] == "tcp" else f[7]))
         with virtual_world(0):
-            c = case(m[0], stream, m[2], other)
+            c = case(m[0], stream, m[2], other, cbfail)
         res = tlc.batch(ck, "io/TcpStream_Judge", [c])
         print(c, "rejected" if res.bad else "accepted")
         return 1 if res.bad else 0
